@@ -11,6 +11,7 @@ import Mfi.Lemmas.ResL
 import Mfi.Lemmas.SkelL
 import Mfi.Lemmas.AccL
 import Mfi.Props.C10
+import Mfi.Lemmas.WorldL
 
 namespace Mfi.Props.C11
 open Mfi Mfi.Tx Mfi.Gen Mfi.Props.C10
@@ -218,5 +219,55 @@ def demoTx : List Ix :=
 
 example : canStartFlashloan demoTx 0 1 2 3 ⟨false, false, false, false⟩ = .ok () := by rfl
 example : (run demoTx (fun i => decide (i < 1000)) (fun _ => ⟨false, false, false, false⟩)).isOk = true := by decide
+
+section whole_instructions
+open Mfi Mfi.World Mfi.Gen Mfi.Gen.Acc
+
+/-! ### the whole end instruction (Mfi/Model/World.lean: `World.endFlashloan`) -/
+
+theorem clear_flag (flags : Nat) : hasFlag (flags &&& (Nat.xor ACCOUNT_IN_FLASHLOAN.toNat (2 ^ 64 - 1))) ACCOUNT_IN_FLASHLOAN = false := by
+  unfold hasFlag
+  have h : ACCOUNT_IN_FLASHLOAN.toNat = 2 := by decide
+  rw [h]
+  have : (flags &&& Nat.xor 2 (2 ^ 64 - 1)) &&& 2 = 0 := by
+    apply Nat.eq_of_testBit_eq
+    intro i
+    simp only [Nat.testBit_and, Nat.zero_testBit]
+    by_cases hi : i = 1
+    · subst hi
+      have h2 : Nat.testBit 18446744073709551613 1 = false := by decide
+      simp [h2]
+    · have : Nat.testBit 2 i = false := by
+        rw [show (2 : Nat) = 2 ^ 1 by rfl, Nat.testBit_two_pow]; simp; omega
+      simp [this]
+  rw [this]
+  decide
+
+/-- **world_end_flashloan_enforces_health**: `lending_account_end_flashloan` goes through only when signed by the account's
+    authority, at the top level of the transaction (not via CPI), on an account that is neither disabled, in receivership
+    nor frozen; it leaves the in-flash-loan flag CLEARED, and the portfolio as stored — every active slot, in slot order —
+    passes the full initial-margin check, which cannot be skipped because the flag is cleared before it runs. -/
+theorem world_end_flashloan_enforces_health {c : Ctx} {stack f : Nat} (h : World.endFlashloan c stack = .ok f) :
+    c.a.authority = c.signer ∧ stack = 1 ∧
+    flag c ACCOUNT_DISABLED = false ∧ flag c ACCOUNT_IN_RECEIVERSHIP = false ∧ flag c ACCOUNT_FROZEN = false ∧
+    hasFlag f ACCOUNT_IN_FLASHLOAN = false ∧
+    ∃ ps, portfolio c c.a.slots c.b.books = .ok ps ∧ Risk.checkInitHealth ps = .ok () := by
+  unfold World.endFlashloan at h
+  obtain ⟨_, hc, h⟩ := Res.bind_ok h
+  obtain ⟨_, hs, h⟩ := Res.bind_ok h
+  obtain ⟨_, h1, h⟩ := Res.bind_ok h
+  obtain ⟨_, h2, h⟩ := Res.bind_ok h
+  obtain ⟨_, h3, h⟩ := Res.bind_ok h
+  obtain ⟨ps, hps, h⟩ := Res.bind_ok h
+  obtain ⟨_, hh, h⟩ := Res.bind_ok h
+  injection h with h
+  subst h
+  have hc' := runChecks_ok hc
+  simp only [checks, List.forall_mem_cons, List.not_mem_nil, false_imp_iff, implies_true, and_true] at hc'
+  simp [evalChk, Ctx.env, AccV.key] at hc'
+  refine ⟨hc', by simpa using Bank.chk_ok hs, by simpa using Bank.chk_ok h1, by simpa using Bank.chk_ok h2,
+    by simpa using Bank.chk_ok h3, clear_flag _, ps, hps, hh⟩
+
+end whole_instructions
 
 end Mfi.Props.C11
